@@ -31,18 +31,24 @@ theorem pull_error_no_push {s : Server} {f : Flight} {doc : Doc} {p : List Chang
         · next e' he' =>
           unfold preparePackCore at he'
           split at he'
-          · simp at he'
-          · split at he'
-            · next hep =>
-              have : (pushedFlight doc f p).docInfo.epoch = doc.epoch := rfl
+          · next hsw =>
+              simp only [Bool.and_eq_true] at hsw
+              have hep := hsw.2
               simp only [pushedFlight] at hep
               exact hne (by simpa [pushedDoc] using hep)
+          · split at he'
+            · simp at he'
             · split at he'
-              · next hlt =>
-                rw [pushedFlight_initialSeq] at hlt
-                simp only [pushedFlight] at hlt
-                omega
-              · split at he' <;> simp at he'
+              · next hep =>
+                have : (pushedFlight doc f p).docInfo.epoch = doc.epoch := rfl
+                simp only [pushedFlight] at hep
+                exact hne (by simpa [pushedDoc] using hep)
+              · split at he'
+                · next hlt =>
+                  rw [pushedFlight_initialSeq] at hlt
+                  simp only [pushedFlight] at hlt
+                  omega
+                · split at he' <;> simp at he'
   · next hc =>
     injection hg with hg
     rw [← hg]
@@ -184,16 +190,18 @@ theorem pullPackResp_cp_clientSeq {s : Server} {f : Flight} {r : Resp} (h : pull
     injection h with h; subst h
     unfold preparePackCore at hr
     split at hr
-    · injection hr with hr; subst hr; rfl
+    · simp at hr
     · split at hr
-      · simp at hr
+      · injection hr with hr; subst hr; rfl
       · split at hr
         · simp at hr
         · split at hr
-          · injection hr with hr; subst hr
-            simp only [pullChangeInfos, nextServerSeq_clientSeq]
-          · injection hr with hr; subst hr
-            simp only [nextServerSeq_clientSeq]
+          · simp at hr
+          · split at hr
+            · injection hr with hr; subst hr
+              simp only [pullChangeInfos, nextServerSeq_clientSeq]
+            · injection hr with hr; subst hr
+              simp only [nextServerSeq_clientSeq]
   · split at h
     · injection h with h; subst h; rfl
     · simp at h
@@ -680,14 +688,16 @@ theorem no_echo_pushPull {s s' : Server} {f f' : Flight} (hp : PPOk s f s' f') (
       injection hpull with hpull; subst hpull
       unfold preparePackCore at hr
       split at hr
-      · injection hr with hr; subst hr; simp at hs
+      · simp at hr
       · split at hr
-        · simp at hr
+        · injection hr with hr; subst hr; simp at hs
         · split at hr
           · simp at hr
           · split at hr
-            · injection hr with hr; subst hr; simp at hs
-            · injection hr with hr; subst hr; simp at hrow
+            · simp at hr
+            · split at hr
+              · injection hr with hr; subst hr; simp at hs
+              · injection hr with hr; subst hr; simp at hrow
     · split at hpull
       · injection hpull with hpull; subst hpull; simp at hs
       · simp at hpull
